@@ -6,7 +6,7 @@
    reference ranges (the C06_equals theorems) and is the one relation that returns the
    reference itself. *)
 From Coq Require Import Permutation.
-From Stam Require Import Base.Tac Model.Rel Model.Search Proofs.Rel Proofs.Search Proofs.SearchEach.
+From Stam Require Import Base.Tac Model.Rel Model.Search Proofs.Rel Proofs.Search Proofs.SearchEach Model.RelArms Model.RangeArms Gen.RangeTable Proofs.AgreeRange Gen.RelPairTable Gen.RelSetTables Proofs.AgreeRelSets.
 
 Theorem C06_sound : forall ws o R K len h, generic o ->
   In h (search ws o R K len) -> In h (related ws o R K).
@@ -69,3 +69,27 @@ Proof. exact search_each_exact. Qed.
 
 Theorem C06_from_iterator_each_once : forall ws o refs K len, NoDup (search_each ws o refs K len).
 Proof. exact search_each_once. Qed.
+
+(* The slice of the position index and the direction of the walk are the ones the source chooses
+   now: [range_arms] is regenerated on every run from the arms of
+   FindTextSelectionsIter::init_textseliters (tools/translate_range.py) ... *)
+Theorem C06_code_range_is_the_model : forall o R len,
+  interp_range range_arms o (ref_begin R) (ref_end R) len = Some (search_range o R len).
+Proof. exact range_arms_agree. Qed.
+
+(* ... so the key obligation holds of the code's own arms: whenever the relation test can hold of a
+   candidate inside the text, the candidate's begin (walking forward) or end (walking backwards)
+   lies in the slice the code walks *)
+Theorem C06_code_range_covers : forall ws o R c len, set_ok R -> items R <> [] -> tb c <= te c -> te c <= len ->
+  test_set_ts ws o R c = true ->
+  exists rg, interp_range range_arms o (ref_begin R) (ref_end R) len = Some rg /\ in_range rg c.
+Proof.
+  intros ws o R c len H1 H2 H3 H4 H5. exists (search_range o R len). split; [apply range_arms_agree|].
+  apply (range_sound ws o R c len H1 H2 H3 H4 H5).
+Qed.
+
+(* and the filter applied to every candidate of the walk is the code's own relation test
+   (TextSelectionSet::test, tools/translate_relsets.py, see C13) *)
+Theorem C06_code_filter_is_the_model : forall ws o R c,
+  interp_set_ts pair_arms set_ts_arms ws o R c = Some (test_set_ts ws o R c).
+Proof. exact set_ts_arms_agree. Qed.
